@@ -333,7 +333,7 @@ class C05(Prop):
         "inside actual_subscribe) or hot Subjects driven by the script; single-threaded histories",
         "a Subject subscribed after its own completion never calls the late subscriber (C06's domain): "
         "such histories are compared with the model but excluded from the C05 oracle",
-        "usize::MAX is 2^64-1; limit 0 is excluded (the code queues every inner forever; stated in Lean)",
+        "usize::MAX is 2^64-1; limit 0 is outside the oracle (the code queues every inner forever; stated in Lean) but is generated for the correspondence",
     ]
     modelled_not_verified = ("all Rust code; RxModel/Ops/MergeAll.lean is a hand transcription of "
                              "src/ops/merge_all.rs (+ the Subject/Subscriber behaviour it relies on), "
@@ -396,8 +396,12 @@ class C05(Prop):
                     ilv = list(interleavings(seqs))
                 else:
                     ilv = [random_interleaving(rng, seqs) for _ in range(cap)]
-                for limit in (1, 2, 3, "inf"):
+                # limit 0: outside the property (every inner waits for ever) but inside the correspondence
+                # and the local = threads comparison of C18
+                for limit in (0, 1, 2, 3, "inf"):
                     if isinstance(limit, int) and limit > size and limit != 1:
+                        continue
+                    if limit == 0 and size > 2:
                         continue
                     for evs in ilv:
                         fl = flavors[len(out) % 2] if total > 6 else None
@@ -431,7 +435,7 @@ class C05(Prop):
             else:
                 fin = rng.choice(["c", "c", "c", "-"] + ([["e", str(rng.randint(1, 9))]] if err else []))
                 inners.append(cold(k, rng.randint(0, 3), fin))
-        limit = rng.choice([1, 1, 2, 2, 3, 4, 5, "inf", "concat", "flatten"])
+        limit = rng.choice([1, 1, 2, 2, 3, 4, 5, "inf", "concat", "flatten", 0])
         via = None
         r = rng.random()
         if r < 0.15:
